@@ -61,6 +61,14 @@ def run(tier, seed, replay=None):
             text = text.replace("endpass;", "endpass; endif;")
             text = text.replace("table(sub)", FEAT + "table(sub)", 1)
             prog.raw_gdl = text
+        collision = (ci % 5 == 4)
+        if collision:
+            # a collision-fixing pass: the collision attributes of the Silf header exist from 4.1, to which lower requests
+            # are raised (C20 examines the octaboxes themselves; here: every build conforms and shapes alike)
+            text = prog.raw_gdl if getattr(prog, "raw_gdl", None) else prog.gdl()
+            text = text.replace("endtable;", "cCollide = glyphid(2..%d) {collision.flags = 1};\nendtable;" % (prog.nglyphs - 1), 1)
+            text += "table(pos) pass(1) {CollisionFix = %d} endpass; endtable;\n" % (1 + ci % 3)
+            prog.raw_gdl = text
         gen.write_case(prog, d)
         fonts = {}
         for v in REQ:
@@ -112,7 +120,7 @@ def run(tier, seed, replay=None):
             silfs[k] = s
             _o, v, c, p = fonts[k]
             sp = 0
-            mv = int(common.run_grcv(["silfversion2 %s %d %d %d 0 %d %d" % (REQ[v], int(bool(v)), int(feature_gated), int(c), int(not p), sp)])[0])
+            mv = int(common.run_grcv(["silfversion2 %s %d %d %d %d %d %d" % (REQ[v], int(bool(v)), int(feature_gated), int(c), int(collision), int(not p), sp)])[0])
             stats["versions_checked"] += 1
             if s["version"] != mv:
                 problems.append("build '%s' declares Silf version %#x, ladder model says %#x" % (k, s["version"], mv))
@@ -173,7 +181,7 @@ def run(tier, seed, replay=None):
         "texts_shaped_all_builds": stats["texts"],
         "traces_validated_against_impl": stats["builds"], "disagreements_checked": len(rep.violations),
         "evaluations": stats["builds"], "distinct_nontrivial": len(distinct),
-        "rule": "generated programs x {default,-v2,-v3,-v4,-v5} x {plain,-c} x {with,without -p} + {-d,-D,verbose}; one evaluation = one build decoded strictly, its declared version compared with the Lean ladder, compressed tables inflated and compared, texts shaped with every build; distinct = distinct (build, declared version)",
+        "rule": "generated programs (every third with feature-gated passes, every fifth with a collision-fixing pass) x {default,-v2,-v3,-v4,-v5} x {plain,-c} x {with,without -p} + {-d,-D,verbose}; one evaluation = one build decoded strictly, its declared version compared with the Lean ladder, compressed tables inflated and compared, texts shaped with every build; distinct = distinct (build, declared version)",
         "samples": samples, "exhaustive": False,
     })
     rep.assumptions += ["the LZ4 block decoder (Lean, `partial def`) is executable specification, not proved; the HC compressor is validated per output only",
